@@ -22,6 +22,7 @@ var Harnesses = map[string]func(){
 	"cont.H_Release":          cont.H_Release,
 	"cont.H_Misuse":           cont.H_Misuse,
 	"cont.H_Registry":         cont.H_Registry,
+	"cont.H_ValueDisposables": cont.H_ValueDisposables,
 	"cont.H_FuncKinds":        cont.H_FuncKinds,
 	"cont.H_Modules":          cont.H_Modules,
 	"cont.H_Builtins":         cont.H_Builtins,
